@@ -56,6 +56,23 @@ def consumer_configs(tier):
     return out
 
 
+def group_configs(tier):
+    """The group protocol in situ: join, sync, heartbeat, commit, offset fetch, leave and the rejoin after every
+    error answer, all parsed strictly."""
+    cl = {"brokers": [1, 2], "topics": {"t": {"0": 1, "1": 2}}, "coordinator": 2}
+    errs = {"11": [15, 25, 27], "14": [22, 25, 27, 16], "12": [22, 25, 27, 16, 24], "8": [22, 25, 27], "10": [15],
+            "9": [14, 16]}
+    out = []
+    for leader, phantom, cid in (("real", False, "verif"), ("phantom", True, ""), ("real", True, None)):
+        out.append({"cluster": cl, "discovery": False, "timeout_ms": 5000, "topics": ["t"], "client_id": cid,
+                    "logs": {"t/0": 2, "t/1": 1},
+                    "group": {"leader": leader, "phantom_topics": ["t"], "phantom_active": phantom},
+                    "processor": "sync", "commit_every_n": 1, "script": [["start"], ["stop", {"consumed": True}]],
+                    "menu": {"err": errs, "timer_early": True, "app_early": True,
+                             "cluster_events": [["phantom_joins", "grp"], ["evict", "grp"]]}, "horizon_s": 400})
+    return out
+
+
 def run_into(rep, tier, seed):
     b = (1, 1, 2) if tier == "quick" else (2, 2, 3)
     rule = rep.coverage.get("rule", "")
@@ -63,6 +80,8 @@ def run_into(rep, tier, seed):
                    seed, rule, rep.assumptions, rep=rep)
     _dfs.run_plans("C04", "harness.consumer:ConsumerWorld", [("negotiation-consumer", consumer_configs(tier), b)],
                    seed, rule, rep.assumptions, rep=rep, max_steps=400)
+    _dfs.run_plans("C04", "harness.group:GroupWorld", [("group-protocol-in-situ", group_configs(tier), b)],
+                   seed, rule, rep.assumptions, rep=rep, max_steps=500)
     rep.level = "exploration"
     rep.coverage["negotiation_rule"] = (
         "real Producer/Consumer + KafkaClient with discovery enabled against brokers advertising produce max "
@@ -71,7 +90,11 @@ def run_into(rep, tier, seed):
         "timers overtaking I/O, ApiVersions answered with error 35 or swallowed).  Every request on the wire must "
         "parse strictly (message format allowed by the Produce version), the produce/fetch version must be "
         "advertised and implemented (0 or 2), version 0 when discovery failed, and without faults every send "
-        "succeeds / every message is delivered (the reply was decoded with the matching layout).")
+        "succeeds / every message is delivered (the reply was decoded with the matching layout).  group-protocol-in-"
+        "situ: the real ConsumerGroup against the simulated coordinator with error answers {15,16,22,24,25,27} on the "
+        "group requests, eviction and rebalance; every JoinGroup / SyncGroup / Heartbeat / LeaveGroup / OffsetCommit "
+        "/ OffsetFetch request on the wire must parse strictly (non-nullable strings, lengths) and carry the "
+        "configured client id.")
 
 
 def replay(v):
